@@ -3,10 +3,15 @@ import os, random
 import vlib, netcases
 from netcases import Case
 
-# nargs: entry arguments before the script; gen: model generator suite; retries: index of the retries argument
-FAMILIES = {
-    "valve": dict(nargs=4, gen="valve", retries=3, port=0, gather=2),
-}
+# One file per family in props/families/: FAMILY = dict(name=…, nargs=<entry arguments before the script>,
+# gen=<model generator suite>, retries=<index of the retries argument>, port=<index of the port argument>, …)
+import importlib, pkgutil
+from props import families as _families
+
+FAMILIES = {}
+for _m in pkgutil.iter_modules(_families.__path__):
+    _mod = importlib.import_module("props.families." + _m.name)
+    FAMILIES[_mod.FAMILY["name"]] = _mod.FAMILY
 
 
 class Valid:
